@@ -6,7 +6,8 @@ Tie: the real `make_distance_matrix_from_adjacency_matrix`, `determine_optimal_i
 (`gr.dist`, `gr.components`, `gr.inttype`, `gr.gh`, `gr.symm`), exact comparison of integer matrices, dtype,
 warning flag, error kind; scipy's `shortest_path` / `connected_components` are contracts of the model and are
 exercised by that exact comparison on every case.
-[T]: the laws of the statement evaluated on the real code (formats agree, relabelling, N x N symmetric zero-diagonal
+[T]: the laws of the statement evaluated on the real code (formats agree - dense arrays in every memory layout included:
+transposed, Fortran-ordered, fancy-indexed, strided, read-only, the kinds "<dtype>:<layout>" of `pack` -, relabelling, N x N symmetric zero-diagonal
 collections with lb <= ub whose lower bounds are the pair calls' and whose entries bracket the distance, lower bounds
 identical across formats, brackets valid against an exhaustive mGH oracle for <= 6 vertices (skips are counted; identical
 spaces beyond that range must get lb = 0), disconnected graphs come with a warning - any Warning - and do not raise, the
@@ -26,7 +27,7 @@ component-selection lines of the fallback (key "graph", Generated/SrcGraph.lean)
 `Graph.gromovHausdorff` for all inputs and, composed with the `estimate` of key "mgh", to `MGHPublic.publicGH`
 (Lemmas/SrcGHEntryPublic.lean); `run` first reports which of those obligations no longer check.
 """
-import itertools, math, warnings
+import itertools, math, random, warnings
 from collections import deque
 import numpy as np
 import scipy.sparse as sps
@@ -41,7 +42,10 @@ RULE = ("graphs generated from one PRNG: paths, cycles, stars, complete graphs, 
         "(quick) / ..40 (thorough) plus long paths/cycles around the int8/int16 boundary (diameter 126..129); each graph "
         "is submitted in several representations: orientation upper/symmetric/lower/mixed, weights 1 / integers / "
         "non-integer floats, optional self-loops, container list/tuple/ndarray int,bool,float/np.matrix/CSR/CSC/COO/"
-        "LIL/DOK/BSR/DIA/csr_array/coo_array, identity or random relabelling; a malformed stream (empty, ragged, non-square); pairs and "
+        "LIL/DOK/BSR/DIA/csr_array/coo_array and dense arrays (int, bool, float) that are NOT C-contiguous or not writable - the "
+        "transposed view of the transposed entries (`.T` of the upper / lower / symmetric matrix), Fortran order, the result of a "
+        "fancy-indexed relabelling `B[q][:, q]`, the strided view `big[::2, ::2]`, read-only C- and F-ordered arrays -, "
+        "identity or random relabelling; a malformed stream (empty, ragged, non-square); pairs and "
         "collections of 2-6 graphs in mixed formats; four pairs of 128/129-vertex paths/stars/cycles (isomorphic relabelled "
         "pairs and non-isomorphic ones) through the public gromov_hausdorff with mapping_sample_size_order [0,0] or [.25,0]. non-trivial = a graph with >= 3 vertices and >= 1 edge; distinct "
         "by digest of (operation, container, entries)")
@@ -291,9 +295,24 @@ def gen_graph(ctx, nmax):
 # ----------------------------------------------------------------------------- representations
 
 ORIENT = ["upper", "sym", "lower", "mixed"]
+# dense arrays in a memory layout other than the one `np.array(nested lists)` makes - the SAME entries, another `ndarray` (a user
+# gets these from `A.T`, `np.asfortranarray`, a relabelling `A[p][:, p]`, a sub-sampled view, a frozen array).  Container kind
+# "<dtype>:<layout>": dtype int / bool / float as for the plain kinds; layout
+#   T        the transposed VIEW of the array holding the transposed entries (`B.T` with `B = A.T` C-contiguous): F-contiguous;
+#            with orientation upper / lower / sym this is `.T` of a lower- / upper-triangular / symmetric matrix
+#   F        `np.asfortranarray(A)` (owns its data, F-contiguous)
+#   fancy    `B[q][:, q]` for a permutation q and B the array with `B[q][:, q] == A`: what NumPy's fancy-indexed relabelling
+#            returns (neither C- nor, in general, a view)
+#   strided  the view `big[::2, ::2]` of an array twice as large whose other cells are 1 (neither C- nor F-contiguous)
+#   ro       C-contiguous but read-only (`setflags(write=False)`);   roF  Fortran-ordered and read-only
+# /repo fc69e2e: before it every layout except `ro` made scipy's Floyd-Warshall fail ("ndarray is not C-contiguous") and
+# gromov_hausdorff raise ValueError - the harness then only built C-contiguous arrays and missed it.
+LAYOUTS = ["T", "F", "fancy", "strided", "ro", "roF"]
+LAYOUT_CONTAINERS = ["%s:%s" % (d, l) for l in LAYOUTS for d in ("int", "bool", "float")]
 CONTAINERS = ["list", "tuple", "int", "bool", "float", "csr", "csc", "coo", "matrix", "lil", "dok", "bsr", "dia",
-              "csr_array", "coo_array"]
-MAIN_CONTAINERS = ["list", "int", "bool", "float", "csr", "csc", "coo"]
+              "csr_array", "coo_array"] + LAYOUT_CONTAINERS
+MAIN_CONTAINERS = ["list", "int", "bool", "float", "csr", "csc", "coo",
+                   "int:T", "float:F", "int:fancy", "bool:strided", "float:ro", "bool:T", "float:fancy"]
 
 
 def represent(r, U, orient, weights, loops, perm):
@@ -318,7 +337,44 @@ def represent(r, U, orient, weights, loops, perm):
     return E
 
 
+def relayout(x, layout):
+    """the 2-D array `x` (C-contiguous) as ANOTHER ndarray with the same shape, dtype and entries; deterministic (a replay
+    rebuilds the very same object from the container kind and the entries)"""
+    n = x.shape[0]
+    if layout == "T":
+        y = np.ascontiguousarray(x.T).T
+    elif layout == "F":
+        y = np.asfortranarray(x)
+    elif layout == "fancy":
+        q = np.array(random.Random(n).sample(range(n), n), dtype=int)     # a fixed permutation per size
+        inv = np.argsort(q)
+        y = np.ascontiguousarray(x[np.ix_(inv, inv)])[q][:, q]
+    elif layout == "strided":
+        big = np.ones((2 * x.shape[0], 2 * x.shape[1]), dtype=x.dtype)
+        big[::2, ::2] = x
+        y = big[::2, ::2]
+    elif layout == "ro":
+        y = x.copy()
+        y.setflags(write=False)
+    elif layout == "roF":
+        y = np.asfortranarray(x).copy(order="F")
+        y.setflags(write=False)
+    else:
+        raise common.HarnessError("layout " + layout)
+    # the harness's own construction: same entries, and really not the layout the plain kinds have
+    want_nc = layout != "ro" and x.shape[0] > 1 and x.shape[1] > 1
+    if y.shape != x.shape or y.dtype != x.dtype or not np.array_equal(y, x) or (want_nc and y.flags.c_contiguous) \
+            or (layout in ("ro", "roF") and y.flags.writeable):
+        raise common.HarnessError("relayout %s: did not build the intended array (flags %s)" % (layout, y.flags))
+    return y
+
+
 def pack(E, container):
+    if ":" in container:
+        dt, layout = container.split(":")
+        if dt not in ("int", "bool", "float"):
+            raise common.HarnessError("container " + container)
+        return relayout(np.ascontiguousarray(pack(E, dt)), layout)
     if container == "list":
         return [list(row) for row in E]
     if container == "tuple":
@@ -812,7 +868,7 @@ def stream_big_pairs(ctx):
     for name, U1, U2, iso in jobs:
         seed = r.randrange(2 ** 31)
         order = r.choice([[0.0, 0.0], [0.25, 0.0]])
-        cont = r.choice(["int", "csr", "list"])
+        cont = r.choice(["int", "csr", "list", "int:T", "int:F", "int:fancy", "bool:strided", "float:roF"])
         case = {"op": "bigpair", "name": name, "seed": seed, "order": order, "container": cont, "entries": [U1, U2], "isomorphic": iso}
         ok, why = big_pair_ok(case)
         ctx.case({"op": "bigpair", "name": name, "seed": seed, "order": order, "container": cont}, nontrivial=True, sample_every=10 ** 9)
@@ -836,11 +892,14 @@ def stream_relabel_lb(ctx):
         n = r.randint(7, 11)
         _, U1 = g_connected(r, n)
         U2 = relabel_sym(r, U1)
+        # the relabelled graph as the array a user's own relabelling produces (`A[p][:, p]`, `A.T`, Fortran order, ...)
+        cont = r.choice(["int", "int:fancy", "int:fancy", "int:T", "int:F", "bool:strided", "float:ro"])
+        ctx.count("relabel_lb:container=" + cont)
         with np.errstate(all="ignore"), warnings.catch_warnings():
             warnings.simplefilter("ignore")
             try:
                 lb = float(m.find_lb(m.make_distance_matrix_from_adjacency_matrix(np.array(U1)),
-                                     m.make_distance_matrix_from_adjacency_matrix(np.array(U2))))
+                                     m.make_distance_matrix_from_adjacency_matrix(pack(U2, cont))))
                 why = None if lb == 0.0 else "lower bound %s/2 for a graph and a relabelling of itself (mGH = 0)" % lb
             except Exception as e:                      # noqa: a raise on a well-formed connected graph is a failing input
                 why = "raised %s: %s" % (type(e).__name__, e)
@@ -850,7 +909,7 @@ def stream_relabel_lb(ctx):
             # find_lb / make_distance_matrix are called here with the harness's own convention: the claim is made through
             # the PUBLIC entry point (the same case, which is also what the replay runs); only a failure there is a
             # failing input
-            case = {"op": "bigpair", "name": "relabelled %d-vertex graph" % n, "seed": 0, "order": [0.0, 0.0], "container": "int",
+            case = {"op": "bigpair", "name": "relabelled %d-vertex graph" % n, "seed": 0, "order": [0.0, 0.0], "container": cont,
                     "entries": [U1, U2], "isomorphic": True}
             ok_pub, why_pub = big_pair_ok(case)
             if not ok_pub:
@@ -1320,7 +1379,10 @@ MANIFEST = {
             "2*mGH <= c is invariant under relabelling (spec level); "
             "the pre-fix rows-only fallback is shown non-square by `decide`. The model is tied to the code on every run by exact comparison "
             "(distance matrix, warning, dtype, error kind, component labels, dispatch with the recorded estimate calls replayed into the "
-            "model) on generated graphs in 15 containers x orientations x weights x relabellings. What the statement does not fix "
+            "model) on generated graphs in 33 containers (nested lists / tuples, ndarray int / bool / float, np.matrix, 9 sparse kinds, and "
+            "dense arrays that are not C-contiguous or not writable: transposed view, Fortran order, fancy-indexed relabelling, strided "
+            "view, read-only, each as int / bool / float - the layouts behind /repo fc69e2e, which an earlier harness of C-contiguous "
+            "arrays only had missed) x orientations x weights x relabellings. What the statement does not fix "
             "(dtype, warning category, upper bounds across formats, the order/attribution of estimate calls inside a collection "
             "call) is compared with the model only and reported as no-failing-input-found; a failing input is claimed for wrong "
             "distances / non-metrics, raising, a missing warning, a disconnected-graph warning on connected graphs, differing lower "
